@@ -28,6 +28,19 @@ impl Ctx {
     pub fn thorough(&self) -> bool {
         self.run.thorough()
     }
+    /// switch the workers to the dev-profile build of the harness (debug assertions and overflow
+    /// checks on, in the subject and in rabuf); false if that build does not exist
+    pub fn use_dev_workers(&mut self) -> bool {
+        let exe = crate::report::verif_root().join("harness/target/verifdev/abyv");
+        if !exe.exists() {
+            self.run.notes.push("dev-profile pass skipped: harness/target/verifdev/abyv not built".into());
+            return false;
+        }
+        let n = self.pool.size();
+        self.pool = Pool::new(n, vec![("ABYV_WORKER_EXE".to_string(), exe.display().to_string())], vec![]);
+        self.run.notes.push("a dev-profile pass (debug assertions + overflow checks on) was run with workers from harness/target/verifdev".into());
+        true
+    }
     pub fn finish_model_checking(mut self, rule: &str, nontrivial_counters: &[&str]) -> i32 {
         let mut nt: i64 = 0;
         for c in nontrivial_counters {
@@ -303,6 +316,13 @@ pub fn c01(tier: &str, seed: u64) -> i32 {
     let mut ctx = Ctx::new("C01", tier, seed, "model_checking");
     standard_runs(&mut ctx, "C01", O_API, 0, 0, false, &KtId::ALL, 200_000);
     crate::engine_b::c01_live(&mut ctx);
+    if ctx.run.violations.is_empty() && (ctx.thorough() || std::env::var("ABYV_DEV_PASS").is_ok()) && ctx.use_dev_workers() {
+        // the same closures and sequences under dev semantics (what `cargo test` builds)
+        let tier = std::mem::replace(&mut ctx.run.tier, "quick".into());
+        standard_runs(&mut ctx, "C01", O_API, 0, 0, false, &[KtId::Bytes, KtId::U64], 200_000);
+        crate::engine_b::c01_live(&mut ctx);
+        ctx.run.tier = tier;
+    }
     let rule = format!("{RULE_A}; oracle: every call's result and, on every state, get/includes_key of every alphabet key and of never-stored keys, len and is_empty equal the BTreeMap model; non-trivial = states whose expansion was preceded by at least one update (api_reads counts the reads compared); plus engine B: every call sequence up to the stated depth on live handles without re-open");
     ctx.finish_model_checking(&rule, &["api_reads"])
 }
